@@ -84,3 +84,8 @@ claim("C10",
       "Decides that every mutation of a file-store mailbox is persisted before a success return, that the index writer and reader agree on record order and types and that every persisted field is exported and is what the getters return, that the store keeps no mailbox state in memory and loads the index before every use, that opening the store destroys nothing, and that the by-name and by-hash constructors compute the same paths and lock. Equality of data read back after a restart is not decided.",
       "Trusts go/ssa and encoding/gob round-tripping exported fields.",
       "DESIGN.md section 4, C10")
+claim("C17",
+      "loop/edge structure of the generic synchronous broker (through its instantiations), dominance and reach-avoid on the effective-action value in the SMTP handlers, struct-literal field check for Protect, nil-state tuples of the unwrap helpers, guarded-by and pop/shrink ordering for the Lua state pool",
+      "Decides that the first answering hook wins and no later hook is called, that Deny/Allow/Defer are mapped literally in the MAIL and RCPT handlers (hook's code and text, no state change on Deny; policy only under Defer; Allow bypasses policy), that the store-policy filter runs only without a hook answer, that every Lua call is protected and failures yield 'no answer', and that pooled Lua states are handed to one user at a time and returned exactly once. Lua semantics and script grammar are not decided.",
+      "Trusts go/ssa; gopher-lua's Protect semantics.",
+      "DESIGN.md section 4, C17")
